@@ -30,6 +30,7 @@ import (
 	"github.com/onosproject/onos-config/pkg/utils"
 	t2 "github.com/onosproject/onos-config/pkg/utils/v2/tree"
 	t3 "github.com/onosproject/onos-config/pkg/utils/v3/tree"
+	"github.com/openconfig/gnmi/proto/gnmi"
 )
 
 type item struct {
@@ -157,7 +158,30 @@ func backV3(l []v3.PathValue) []item {
 
 var names = []string{"a", "b", "ab", "a-b", "a.b", "abc", "b1", "c", "l", "lx", "l1", "m", "k", "id", "n", "x:y", "z", "0"}
 var keySets = [][]string{{"k"}, {"id"}, {"a", "b"}, {"k", "n"}, {"id", "name", "z"}, {"n"}}
-var keyVals = []string{"1", "10", "100", "2", "01", "true", "false", "a", "ab", "a/b", "-1", "1.5", "x y", "é", "0", "a-b", "a.b", "18446744073709551615", "-9223372036854775808"}
+var keyVals = []string{"1", "10", "100", "2", "01", "true", "false", "a", "ab", "a/b", "-1", "1.5", "x y", "é", "0", "a-b", "a.b", "18446744073709551615", "-9223372036854775808",
+	"Mgmt", "mgmt", "Edge", "edge", "A", "AB", "Ab", "TRUE", "É", "C:\\", "a\\b", "\\", "dir\\sub\\"}
+
+// caseVariants returns the value and spellings of it that differ only in letter case
+func caseVariants(v string) []string {
+	l := []string{v}
+	for _, w := range []string{strings.ToUpper(v), strings.ToLower(v), strings.Title(strings.ToLower(v))} {
+		dup := false
+		for _, o := range l {
+			if o == w {
+				dup = true
+			}
+		}
+		if !dup {
+			l = append(l, w)
+		}
+	}
+	return l
+}
+
+// keysText renders the keys of a list entry as utils.StrPathElem does (sorted by name, '\\' and ']' escaped)
+func keysText(nm string, kv map[string]string) string {
+	return utils.StrPathElem([]*gnmi.PathElem{{Name: nm, Key: kv}})[1+len(nm):]
+}
 
 type g struct {
 	r      *rand.Rand
@@ -233,7 +257,7 @@ func (x *g) keyLeaf(text string) *v2.TypedValue {
 		}
 	}
 	if i, err := strconv.ParseInt(text, 10, 64); err == nil && strconv.FormatInt(i, 10) == text && r.Intn(3) != 0 {
-		return v2.NewTypedValueInt(int(i), v2.Width([]int{8, 32, 64}[r.Intn(3)]))
+		return v2.NewTypedValueInt(int(i), v2.Width([]int{8, 16, 32, 64}[r.Intn(4)]))
 	}
 	if u, err := strconv.ParseUint(text, 10, 64); err == nil && strconv.FormatUint(u, 10) == text && r.Intn(2) == 0 {
 		return v2.NewTypedValueUint(uint(u), v2.Width([]int{32, 64}[r.Intn(2)]))
@@ -256,7 +280,7 @@ func (x *g) node(prefix, sp string, depth int, keys map[string]string) {
 		}
 		sort.Strings(ks)
 		for _, k := range ks {
-			if r.Intn(3) == 0 {
+			if r.Intn(2) == 0 {
 				x.out = append(x.out, fromTV(prefix+"/"+k, false, x.keyLeaf(keys[k])))
 			}
 		}
@@ -292,13 +316,19 @@ func (x *g) node(prefix, sp string, depth int, keys map[string]string) {
 				if r.Intn(3) == 0 {
 					pools[k] = append(pools[k], pick(r, keyVals))
 				}
+				if r.Intn(3) == 0 { // sibling entries whose keys are equal up to letter case
+					pools[k] = caseVariants(pick(r, []string{"mgmt", "Edge", "ab", "a", "true", "é", "x y"}))
+				}
 			}
 			for e := 0; e < 1+r.Intn(4); e++ {
 				kv := map[string]string{}
-				txt := ""
 				for _, k := range ks {
 					kv[k] = pick(r, pools[k])
-					txt += "[" + k + "=" + kv[k] + "]"
+				}
+				txt := keysText(nm, kv)
+				// BuildTree takes the key text as it is written in the path; explicit key leaves repeat that text
+				for k, v := range kv {
+					kv[k] = strings.ReplaceAll(v, "\\", "\\\\")
 				}
 				if seen[txt] {
 					continue
